@@ -22,7 +22,7 @@ EXPLANATION = "metamorphic relations between pairs of real runs over a bounded l
 ADAPTIVE = ("linada", "expada")
 VMAPS_GENERIC = [(2.0, 0.0), (-1.0, 0.0), (0.5, 3.0), (-3.7, 1.25)]
 VMAPS_EXACT = [(2.0, 0.0), (-1.0, 0.0), (0.25, 0.0), (1.0, 3.0)]
-TMAPS = [(2.0, 0.0), (1.0, 5.0), (0.1, -3.3), (8.0, 1.0), (1.0, float(2 ** 20)), (0.5, -float(2 ** 24))]
+TMAPS = [(2.0, 0.0), (1.0, 5.0), (0.1, -3.3), (8.0, 1.0), (1.0, float(2 ** 20)), (0.5, -float(2 ** 24)), (1.0, float(2 ** 32))]
 
 
 def bounds(tier, seed):
@@ -56,6 +56,11 @@ def check_valuemap(case):
 @kind("timemap")
 def check_timemap(case):
     st, x, y, n, p, c, d = (case[k] for k in ("strategy", "x", "y", "n", "p", "c", "d"))
+    # history: a different grid with the same length, end points and n is recreated first (a result may
+    # depend only on the arguments of the call, not on what was recreated before in this process)
+    alt = [x[0] + (x[-1] - x[0]) * i / (len(x) - 1) for i in range(len(x))]
+    if alt != list(x):
+        _run(st, alt, y, n, p)
     xs0, ys0 = _run(st, x, y, n, p)
     x2 = [c * v + d for v in x]
     xs1, ys1 = _run(st, x2, y, n, p)
